@@ -15,9 +15,26 @@ import numpy as np
 import nv
 
 
+OFF_ARRAY = set()   # ids of the constructed unreachable states (an IndexError there is in the model too, and no violation)
+
+
 def gen_state(rng, n, gp, nvars, index):
     """a search state: some first marks instantiated, inner distances propagated or not, other domains narrowed at random"""
     doms = [[int(d[0]), int(d[1])] for d in gp.shr_domains_lst]
+    if n >= 6 and rng.random() < 0.08:
+        # an UNREACHABLE state (not a partial ruler): every scanned distance instantiated to a distinct small value, so that the
+        # `used_distance` scan runs off its array (IndexError in interpreted mode, `.error .oob` in the model): the error branch
+        # of the correspondence; staying inside the array is a fact about reachable states, not a counting fact (DESIGN 12.3, C20)
+        ni = n - 2
+        size = (n - 2) * (n - 1) // 2 + 1
+        vals = list(range(1, size))
+        rng.shuffle(vals)
+        for v in range(index(n, ni - 2, ni - 1) + 1):
+            if ni <= v <= n - 2 or not vals:
+                continue
+            doms[v] = [vals.pop()] * 2
+        OFF_ARRAY.add(id(doms))
+        return doms
     k = rng.randint(0, n - 2)
     marks = [0]
     for _ in range(k):
@@ -102,8 +119,10 @@ def run(report, rng, n_cases):
             replay = {"op": "golombprune", "marks": n, "symmetry_breaking": sb, "doms": before, "triggered": trig}
             reqs.append((req, impl, replay))
             report.cov["evaluations"] += 1
-            report.count("golomb_prune", "error" if st is None else ("pruned" if st == 99 and [tuple(d) for d in after] != before else
+            report.count("golomb_prune", ("error (constructed unreachable state)" if id(doms) in OFF_ARRAY else "error") if st is None else ("pruned" if st == 99 and [tuple(d) for d in after] != before else
                                                                     ("unchanged" if st == 99 else "inconsistent")))
+            if st is None and id(doms) in OFF_ARRAY:
+                continue   # compared with the model below; the state is not reachable by any search
             if st is None:
                 viol.append(dict(replay, kind="example", model="golomb", detail=f"golomb_consistency_algorithm on a search state: {impl}"))
                 continue
